@@ -872,12 +872,17 @@ static void FeedZcodec(const Base & B, const std::vector<Bytes> & units, const M
 }
 
 // ------------------------------------------------------------------------------------------ cases: sweeps + families
-static std::map<long, Base> gBasesE[NE];
-static const Base & GetBase(int e, uint64_t seed, long idx, bool sweepBase)
+// Cache of valid material.  Entries are shared_ptrs: whatever a case has asked for stays alive until the case drops it, no matter what is
+// evicted meanwhile (a case may hold two bases at once: its own and the "other" one of the structure-aware mutations).  Sweep bases and the
+// bases of the sampled families live in separate key spaces (a thorough sweep uses thousands of base indices).
+typedef std::shared_ptr<Base> BaseRef;
+static std::map<std::pair<int, long>, BaseRef> gBasesE[NE];
+static BaseRef GetBase(int e, uint64_t seed, long idx, bool sweepBase)
 {
-   std::map<long, Base> & gBases = gBasesE[e]; std::map<long, Base>::iterator it = gBases.find(idx); if (it != gBases.end()) return it->second;
-   if (gBases.size() > 64) { for (std::map<long, Base>::iterator i = gBases.begin(); i != gBases.end(); ) { if (i->first >= 1000) gBases.erase(i++); else ++i; } }
-   Base & B = gBases[idx]; BuildBase(B, e, seed, idx, sweepBase); return B;
+   std::map<std::pair<int, long>, BaseRef> & c = gBasesE[e]; const std::pair<int, long> key(sweepBase ? 1 : 0, idx);
+   std::map<std::pair<int, long>, BaseRef>::iterator it = c.find(key); if (it != c.end()) return it->second;
+   if (c.size() >= 16) c.clear();
+   BaseRef b(new Base); BuildBase(*b, e, seed, idx, sweepBase); c[key] = b; return b;
 }
 struct SweepEnt { int kind; long base; int unit; long start, count; };
 static std::vector<SweepEnt> gSweep; static long gSweepTotal = 0;
@@ -886,7 +891,7 @@ static void BuildSweep(int e, uint64_t seed, long nT, long nW, long cap)
    gSweep.clear(); gSweepTotal = 0;   // cap: the sweeps stop growing (at a base boundary) once they hold 40% (prefixes) / 100% (words) of it, so a leg keeps room for the sampled families
    for (int kind = 0; kind < 2; kind++) for (long i = 0; i < (kind == 0 ? nT : nW); i++) {
       if (cap > 0 && gSweepTotal >= (kind == 0 ? cap * 2 / 5 : cap)) break;
-      const Base & B = GetBase(e, seed, i, true);
+      const BaseRef Bp = GetBase(e, seed, i, true); const Base & B = *Bp;
       for (size_t u = 0; u < B.units.size(); u++) { long c = 0; if (kind == 0) c = (long)std::min<size_t>(B.units[u].size(), 4096); else for (size_t w = 0; w < B.words[u].size(); w++) c += Slots(B.words[u][w]); if (c == 0) continue; SweepEnt s; s.kind = kind; s.base = i; s.unit = (int)u; s.start = gSweepTotal; s.count = c; gSweep.push_back(s); gSweepTotal += c; }
    }
 }
@@ -906,16 +911,16 @@ static void Dispatch(int e, const Base & B, const std::vector<Bytes> & units, co
 static void RunCase(int e, uint64_t seed, long k)
 {
    g = vh::Rng(vh::case_seed(seed, 0xC02000 + e, (uint64_t)k)); caseBad = false; curEntry = ENAME[e];
-   Mut mu; const Base * B; std::vector<Bytes> units;
+   Mut mu; BaseRef Bp, Op; const Base * B; std::vector<Bytes> units;
    if (k < gSweepTotal) {
       size_t lo = 0, hi = gSweep.size() - 1; while (lo < hi) { size_t mid = (lo + hi + 1) / 2; if (gSweep[mid].start <= k) lo = mid; else hi = mid - 1; }
-      const SweepEnt & s = gSweep[lo]; const long j = k - s.start; B = &GetBase(e, seed, s.base, true); units = B->units; mu.unit = s.unit;
+      const SweepEnt & s = gSweep[lo]; const long j = k - s.start; Bp = GetBase(e, seed, s.base, true); B = Bp.get(); units = B->units; mu.unit = s.unit;
       if (s.kind == 0) { mu.family = "truncation"; units[s.unit].resize((size_t)j); mu.truncAt = j; mu.desc = vh::fmt("sweep base %ld unit %d cut at %ld of %zu", s.base, s.unit, j, B->units[s.unit].size()); if (B->units.size() > 1) units.resize(s.unit + 1); }
       else { long acc = 0; const std::vector<Word> & w = B->words[s.unit]; for (size_t i = 0; i < w.size(); i++) { const long sl = Slots(w[i]); if (j < acc + sl) { MutWord(*B, units, mu, s.unit, (int)i, (int)(j - acc)); break; } acc += sl; } mu.desc = vh::fmt("sweep base %ld ", s.base) + mu.desc; }
       vh::stat(s.kind == 0 ? "sweep_truncations" : "sweep_word_values");
    } else {
-      const long kk = k - gSweepTotal, bi = 1000 + kk / 50, j = kk % 50; B = &GetBase(e, seed, bi, false); units = B->units;
-      if (j == 0) mu.family = "valid"; else if (j <= 10) MutTruncate(*B, units, mu); else if (j <= 30) MutWord(*B, units, mu); else if (j <= 38) { const Base & O = GetBase(e, seed, bi + 1, false); B = &GetBase(e, seed, bi, false); MutStructure(*B, O, units, mu); } else MutRandom(*B, units, mu);
+      const long kk = k - gSweepTotal, bi = 1000 + kk / 50, j = kk % 50; Bp = GetBase(e, seed, bi, false); B = Bp.get(); units = B->units;
+      if (j == 0) mu.family = "valid"; else if (j <= 10) MutTruncate(*B, units, mu); else if (j <= 30) MutWord(*B, units, mu); else if (j <= 38) { Op = GetBase(e, seed, bi + 1, false); MutStructure(*B, *Op, units, mu); } else MutRandom(*B, units, mu);
       if (units.empty()) units.push_back(Bytes());
    }
    size_t N = 0; uint64_t dg = vh::fnv(&e, sizeof(e)); for (size_t i = 0; i < units.size(); i++) { N += units[i].size(); dg = vh::fnvs(units[i], dg); }
